@@ -44,6 +44,10 @@ type C11Case struct {
 	// PadKeys: the retained service also carries this many other keys (a large deployment: preparing a
 	// configuration then takes a noticeable time, during which the old one must go on serving)
 	PadKeys int `json:"pad_keys,omitempty"`
+	// IDClash: every configuration has one more service, after the retained one, on an address of its own, whose
+	// key carries the retained key's *id* ("shared") with another cipher and secret (ids are labels; services
+	// number their keys independently)
+	IDClash bool `json:"id_clash,omitempty"`
 }
 
 var c11Shared = kit.KeySpec{ID: "shared", Cipher: kit.Chacha, Secret: "retained-secret"}
@@ -58,6 +62,7 @@ func genC11(t *rapid.T) C11Case {
 		c.Faults = append(c.Faults, rapid.SampledFrom([]string{"", "", "", "held"}).Draw(t, "fault"))
 	}
 	c.PadKeys = rapid.SampledFrom([]int{0, 0, 0, 3000, 15000}).Draw(t, "padKeys")
+	c.IDClash = rapid.IntRange(0, 2).Draw(t, "idClash") == 0
 	c.Hammers = rapid.IntRange(1, 8).Draw(t, "hammers")
 	c.UDPHam = rapid.IntRange(0, 3).Draw(t, "udphammers")
 	c.PaceUs = rapid.SampledFrom([]int{0, 0, 100, 1000}).Draw(t, "pace")
@@ -134,9 +139,23 @@ func runC11Once(c C11Case, info *kit.Info) *kit.Finding {
 	if c.PadKeys > 0 {
 		info.Class("large-retained-service")
 	}
+	// the service whose key shares the retained key's id; always rendered right after the retained service
+	clash := func(y string) string {
+		if !c.IDClash {
+			return y
+		}
+		svc := fmt.Sprintf("  - listeners:\n      - type: tcp\n        address: %s\n    keys:\n      - id: shared\n        cipher: aes-256-gcm\n        secret: another-service-numbers-its-keys-alike\n", yq(s.pt.addr("127.0.0.9", c11Slot)))
+		if k := strings.Index(y, "\nkeys:\n"); k >= 0 && !strings.HasPrefix(y[k:], "\nkeys:\n      ") {
+			return y[:k+1] + svc + y[k+1:]
+		}
+		return y + svc
+	}
+	if c.IDClash {
+		info.Class("same-id-in-two-services")
+	}
 	cfgPath := func(i int) string {
 		extra := append(append([]kit.KeySpec(nil), c.Universe[:i%len(c.Universe)]...), pad...)
-		return s.writeConfig(withRetained(c.Configs[i], extra).renderYAML(s.pt))
+		return s.writeConfig(clash(withRetained(c.Configs[i], extra).renderYAML(s.pt)))
 	}
 	// an address held by somebody else, for the reloads that must fail
 	var heldAddr string
@@ -153,7 +172,7 @@ func runC11Once(c C11Case, info *kit.Info) *kit.Finding {
 	}
 	faultyPath := func(i int) string {
 		extra := append(append([]kit.KeySpec(nil), c.Universe[:i%len(c.Universe)]...), pad...)
-		y := withRetained(c.Configs[i], extra).renderYAML(s.pt)
+		y := clash(withRetained(c.Configs[i], extra).renderYAML(s.pt))
 		svc := fmt.Sprintf("  - listeners:\n      - type: tcp\n        address: %s\n    keys:\n      - id: held\n        cipher: chacha20-ietf-poly1305\n        secret: held-secret\n", yq(heldAddr))
 		if c.Seed%2 == 0 { // before everything else, or after the last service
 			y = strings.Replace(y, "services:\n", "services:\n"+svc, 1)
